@@ -51,7 +51,7 @@ def known_findings():
     fnd, fixed = [], []
     path = os.path.join(ROOT, "KNOWN_FINDINGS.txt")
     if os.path.exists(path):
-        for line in open(path):
+        for line in open(path, errors="replace"):
             line = line.strip()
             m = re.match(r"finding: property=(\S+) key=(\S+) (.*)", line)
             if m:
@@ -82,7 +82,7 @@ def main():
 
     def replay_file(name, text):
         path = os.path.join(work, "replay_" + re.sub(r"[^A-Za-z0-9_.-]", "_", name) + ".txt")
-        with open(path, "w") as f:
+        with open(path, "w", errors="replace") as f:
             f.write(text)
         return path
 
@@ -227,7 +227,7 @@ def main():
                     mismatches.append((name, "DRIVER " + line))
             st = os.path.join(work, name + ".stats.json")
             if os.path.exists(st):
-                d = json.load(open(st))
+                d = json.load(open(st, errors="replace"))
                 total_cases += d["cases"]
                 total_ops += d["ops"]
                 distinct += d["distinct_nontrivial"]
@@ -243,7 +243,7 @@ def main():
             # 5. monitor hits for this property
             vf = os.path.join(work, name + ".violations")
             if os.path.exists(vf):
-                for line in open(vf):
+                for line in open(vf, errors="replace"):
                     parts = line.rstrip("\n").split("\t")
                     if len(parts) >= 3 and parts[0] in cfg.get("monitor_props", [pid]):
                         key = parts[2] if len(parts) > 3 else "monitor"
@@ -440,7 +440,7 @@ def extract_case(work, name, cid):
     path = os.path.join(work, name + ".cases")
     if not os.path.exists(path):
         return "(case file missing)"
-    for line in open(path):
+    for line in open(path, errors="replace"):
         if re.match(r"\(\w+ %s[ )]" % re.escape(cid), line):
             return line if len(line) < 400000 else line[:400000] + "…"
     return "(case not found)"
@@ -450,7 +450,7 @@ def go_digest(work, name, cid, opi):
     path = os.path.join(work, name + ".digests")
     if os.path.exists(path):
         pref = "%s %s " % (cid, opi)
-        for line in open(path):
+        for line in open(path, errors="replace"):
             if line.startswith(pref):
                 return line.strip()
     return "(no digest)"
@@ -466,7 +466,7 @@ def later_kinds(work, name, cid, opi):
         return out
     if os.path.exists(path):
         pref = cid + " "
-        for line in open(path):
+        for line in open(path, errors="replace"):
             if line.startswith(pref):
                 parts = line.split(" ")
                 try:
